@@ -471,6 +471,9 @@ def _work(rec, item):
         gsd_induction(rec, *item[1:])
     elif item[0] == "progress":
         gsd_progress(rec, *item[1:])
+    elif item[0] == "stale":
+        from .C08 import no_stale_state
+        no_stale_state(rec, item[1:])
     else:
         abi_mode(rec, item[1:])
 
@@ -482,6 +485,7 @@ def run(rec):
     rec.assume("redistribution: (1) bounded unwinding of the correction loop (K iterations; longer corrections are cut and counted), (2) loop-body induction from an arbitrary invariant state, (3) progress query 'exists state, for all draws: no progress' must be unsat - termination with probability 1 then follows from independent draws")
     rec.assume("real amounts bounded by 50 (Poisson branch) or in [100,1000] (normal branch) in the GSD runs, by 40 through the ABI")
     rec.assume("through the ABI the redistribution function is replaced by its contract (fresh outputs); what is decided there is the layout of its argument / result and its seed; the contract itself (non-negative integers, floored totals, empty cells stay empty, termination) is the loop-body induction + progress query")
+    rec.assume("reproducibility across set-ups in one process: two set-ups with initial-state processing are executed one after the other on the engine AST (real GenerateStochasticDistribution, concrete states >= 100); any read of process-lifetime storage written during the first set-up is reported")
     for fn in ("GenerateStochasticDistribution", "engineexport_initialize_grid/graph (init-state section)", "SpeciesFirstToMeshFirstArray", "MkVec", "RDScript.init_state_processing via LibRDEngine.setup"):
         rec.encoded(fn)
     q = rec.tier == "quick"
@@ -493,6 +497,9 @@ def run(rec):
         for sd in (("grid", 2, 1, 1, 0), ("graph", "pair")) + ((("grid", 2, 2, 1, 4), ("graph", "triangle")) if not q else ()):
             for isp in ("none", "auto", "Poisson", "redist"):
                 items.append(("abi", "none", sd, option, isp))
+    # 'for a given seed the processing is reproducible': the real redistribution code (entries >= 100: normal branch) run in a second
+    # set-up of the same process must not read storage (function-local statics, globals) written by the first one
+    items += [("stale", "gillespie", ("grid", 2, 1, 1, 0), "tauleap", ("grid", 2, 1, 1, 1), "redist"), ("stale", "tauleap", ("graph", "pair"), "gillespie", ("graph", "pair"), "auto")]
     rec.parallel(_work, items)
     # 'for a given seed the processing is reproducible': the seed given by the user (incl. 0 and 2^32-1) is the one the engine receives
     from . import C08_py
